@@ -99,11 +99,30 @@ theorem C16_machine_segItem (f : Func) (L0 i : Nat) (hL : L0 < 64) (hf : Fits L0
     segItem64 f L0 i = getSeg f L0 i :=
   segItem64_eq f L0 i hL hf
 
+/-- **C16 (machine = ideal, `GetIndex` and `GetItemCount`).** For every slot `(s, o)` whose ideal index fits,
+`GetIndex` as written computes it; `GetItemCount` as written is the ideal segment size whenever the shift
+`1 << (logItemCount + L0)` is defined (`s * 2 + 4 < 2^64`: the sqrt sizing evaluates that expression). -/
+theorem C16_machine_getIndex_itemCount (f : Func) (L0 s o : Nat) (hL : L0 < 64) (hs : s * 2 + 4 < 2 ^ 64) :
+    (Fits L0 (getIndex f L0 s o) → getIndex64 f L0 s o = getIndex f L0 s o) ∧
+    (segLog s + L0 < 64 → itemCount64 f L0 s = itemCount f L0 s) := by
+  cases f
+  · exact ⟨fun hf => getIndex64_sqrt_eq L0 s o hL hs hf, fun hk => itemCount64_sqrt_eq L0 s hs hk⟩
+  · exact ⟨fun hf => getIndex64_cnst_eq L0 s o hf.1, fun _ => itemCount64_cnst_eq L0 s hL⟩
+
 /-- **C16 (round trip, as written).** `GetIndex(GetSegItemIndexes(i)) = i` for the 64-bit functions, for
 every index representable in `size_t` except the F14 point. -/
 theorem C16_roundtrip64 (f : Func) (L0 i : Nat) (hL : L0 < 64) (hf : Fits L0 i) :
     getIndex64 f L0 (segItem64 f L0 i).1 (segItem64 f L0 i).2 = i :=
   roundtrip64 f L0 i hL hf
+
+/-- **C16 (the constant sizing has no excluded point).** For `SegmentedArraySettings<cnst, L0>` the round trip
+holds for every `size_t` index, `2^64 - 1` included. -/
+theorem C16_roundtrip64_cnst (L0 i : Nat) (hL : L0 < 64) (hi : i < 2 ^ 64) :
+    getIndex64 .cnst L0 (segItem64 .cnst L0 i).1 (segItem64 .cnst L0 i).2 = i := by
+  rw [segItem64_cnst_eq L0 i hL]
+  have hr : getIndex .cnst L0 (getSeg .cnst L0 i).1 (getSeg .cnst L0 i).2 = i := C16_roundtrip .cnst L0 i
+  rw [getIndex64_cnst_eq L0 _ _ (by rw [hr]; exact hi)]
+  exact hr
 
 /-- **C16 (offset inside segment, as written)**, for `logInitialItemCount ≤ 31` (so that
 `1 << (logItemCount + L0)` is a defined shift). -/
@@ -201,6 +220,13 @@ theorem C16_capacity_is_total_slots (f : Func) (L0 : Nat) (a : Arr) (w : WF (siz
     c ≤ (a.reserve (sizing f L0) c).capacity (sizing f L0) :=
   ⟨capacity_eq_slots (sizing_lawful f L0) a w.toSegsOK, (reserve_spec (sizing_lawful f L0) a c w).2.2.2⟩
 
+/-- **C16 (Reserve / Shrink keep exactly the segments that are needed).** `segsFor c` — the segment count
+computed at the head of `pvIncCapacity` / `pvDecCapacity` (`GetSegItemIndexes(c)`, plus one when the offset is
+not 0) — is the least number of segments whose slots hold `c` items. -/
+theorem C16_segment_count_for_capacity_is_least (f : Func) (L0 c n : Nat) :
+    Arr.segsFor (sizing f L0) c ≤ n ↔ c ≤ getIndex f L0 n 0 :=
+  (sizing_lawful f L0).segsFor_le_iff c n
+
 /-! ## Non-vacuity: concrete states meeting the hypotheses -/
 
 example : Fits 0 (2 ^ 64 - 2) := by unfold Fits; decide
@@ -218,6 +244,21 @@ example :
     let b := run S a [.reserve 20, .setCount 30, .shrinkFit, .removeBack 5, .shrink 0]
     a.addr S 2 = (some 1, 1) ∧ b.addr S 2 = (some 1, 1) ∧ b.count = 25 ∧ b.segs.length = 9 ∧
     (Op.reserve 20).isGrow a = true := by
+  decide +kernel
+
+/-- the `live` hypothesis of the history theorem is met by a concrete mixed history: element 2 stays live
+    while the array grows to 30, shrinks its capacity, loses 5 elements and is resized to 3 -/
+example :
+    let S := sizing .cnst 2
+    let a := run S {} [.addBack, .addBack, .addBack, .addBack]
+    let ops := [Op.reserve 20, .setCount 30, .shrinkFit, .removeBack 5, .setCount 3, .insert]
+    (∀ n, n ≤ ops.length → 2 < (run S a (ops.take n)).count) ∧ (run S a ops).addr S 2 = (some 0, 2) := by
+  decide +kernel
+/-- the branch of `AddBackCrt` that allocates: 3 items fill segments 0 and 1 of the sqrt sizing with `L0 = 0` -/
+example :
+    let S := sizing .sqrt 0
+    let a := run S {} [.addBack, .addBack, .addBack]
+    ¬ (getSeg .sqrt 0 a.count).1 < a.segs.length ∧ getSeg .sqrt 0 a.count = (2, 0) := by
   decide +kernel
 
 end Momo.Seg
